@@ -83,7 +83,7 @@ pub fn random_block(hp: &HistProp, name: &str, seed: u64, cases: u32) -> Block {
 pub fn known_block(hp: &HistProp, rep: &mut Report) -> Block {
     let mut b = Block::new("known_finding_probes");
     for k in run::load_known().iter().filter(|k| k.property == hp.id && !k.probe.is_empty()) {
-        let path = format!("{}/{}", run::VERIF_DIR, k.probe);
+        let path = format!("{}/{}", run::verif_dir(), k.probe);
         let Ok(v) = run::load_replay(&path) else {
             eprintln!("known finding {}: probe {} unreadable", k.key, path);
             continue;
